@@ -49,7 +49,10 @@ def preceding(rnd, n):
             # literals spanning lines: a break inside, several, one right before the closing quote, right after
             # the opening quote, only breaks
             s = let(name, lit(vstr(rnd.choice(["a\nb", "x\n\ny", "usage:\n", "\nb", "\n", "a\n\n", "\n\n", "l1\nl2\nl3\n"]))))
-        elif r < 0.6:
+        elif r < 0.56:
+            # a character / byte literal that holds a line break
+            s = let(name, lit({"k": "char", "v": 10, "raw": True} if rnd.random() < 0.5 else {"k": "byte", "v": 10, "raw": True}))
+        elif r < 0.62:
             s = filt(lit(vbool(False)), [let("z", I(1)), expr(ident("z"))])
         elif r < 0.7:
             s = block([let("t", I(1)), obs(ident("t"))])
@@ -116,12 +119,13 @@ def run(rep, tier, seed):
     for it in items:
         if it["crlf"]:
             src, _ = render(it["prog"])
-            it["src_override"] = src.replace("\n", "\r\n")
+            # (a one-character literal cannot hold a two-character line end: those keep their bare line feed)
+            it["src_override"] = src.replace("\n", "\r\n").replace("'\r\n'", "'\n'")
     bad, verdicts = progs.run_and_validate(rep, items, chk=("line",))
     rep.cov["distinct_nontrivial"] = len({(it["kind"], it["ctx"], it["src"].count("\n")) for it in items})
     rep.cov["rule"] = ("one failing construct (15 kinds) x 7 contexts (top level, block, if body, loop body, function, two "
                        "call levels, if condition) x random preceding code (blank lines, comments, lets, multi-line "
-                       "functions, filter statements, string literals spanning lines; 20% with CRLF); distinct = "
+                       "functions, filter statements, string / character / byte literals spanning lines; 20% with CRLF); distinct = "
                        "distinct (kind, context, error line position)")
     rep.cov["exhaustive"] = False
     for it in items[:2]:
